@@ -1,5 +1,5 @@
-(* C17 — decoders are safe on arbitrary input.  Only statements here; proofs in Proofs/MsgpackProofs.v. *)
-From Cty Require Import Base Ty BigFloat Value Ops Refine Json Msgpack MsgpackProofs.
+(* C17 — decoders are safe on arbitrary input.  Only statements here; proofs in Proofs/MsgpackProofs.v and Proofs/DecodeProofs.v. *)
+From Cty Require Import Base Ty BigFloat Value Ops Refine Json Msgpack TyProofs MsgpackProofs DecodeProofs.
 Open Scope Z_scope.
 
 (* MessagePack ImpliedType: for every buffer that splits into items, an error or a type -- never a panic *)
@@ -25,3 +25,56 @@ Print Assumptions C17_foreign_ext_refused.
 Theorem C17_bad_item_refused : forall norm jp f t, mp_unmarshal_at norm jp (S f) MBad t = Err OtherError.
 Proof. exact mp_bad_item_refused. Qed.
 Print Assumptions C17_bad_item_refused.
+
+(* ---- token level, every input, every target type, every fuel ---- *)
+(* the JSON type decoder and the JSON implied-type function: an error or a type, never a panic *)
+Theorem C17_json_type_decoder_no_panic : forall norm j, type_of_json norm j <> Panic.
+Proof. exact type_of_json_no_panic. Qed.
+Print Assumptions C17_json_type_decoder_no_panic.
+Theorem C17_json_implied_no_panic : forall norm j, json_implied_type norm j <> Panic.
+Proof. exact json_implied_no_panic. Qed.
+Print Assumptions C17_json_implied_no_panic.
+
+(* the two value decoders never panic, PROVIDED the set constructor does not panic on a non-empty member
+   list whose unmarked members have consistent types (…_partial: that premise needs the whole of Equals on
+   decoded members; it is decided per input by the correspondence and by the worker process).  Lists, maps,
+   tuples, objects, the dynamic wrapper, numbers, strings and refined unknowns are covered outright. *)
+Theorem C17_json_decoder_no_panic_partial : forall norm,
+  (forall vs, vs <> [] -> can_coll (map (fun v => fst (unmark_deep v)) vs) = true -> set_val vs <> Panic) ->
+  forall f j t, json_unmarshal_at norm f j t <> Panic.
+Proof. exact json_unmarshal_no_panic. Qed.
+Print Assumptions C17_json_decoder_no_panic_partial.
+Theorem C17_mp_decoder_no_panic_partial : forall norm,
+  (forall vs, vs <> [] -> can_coll (map (fun v => fst (unmark_deep v)) vs) = true -> set_val vs <> Panic) ->
+  forall jp f m t, mp_unmarshal_at norm jp f m t <> Panic.
+Proof. exact mp_unmarshal_no_panic. Qed.
+Print Assumptions C17_mp_decoder_no_panic_partial.
+
+(* whatever a value decoder returns has a type conforming to the requested constraint ([Conf]: equal up to
+   optional-attribute annotations and with each placeholder of the constraint filled in; TyProofs.conformance_iff
+   ties it to TestConformance).  Target types as cty builds them: sorted, NFC-normal attribute names. *)
+Theorem C17_json_decoded_conforms : forall norm f j t v,
+  wf_ty t = true -> keys_normal norm t -> json_unmarshal_at norm f j t = Ok v -> Conf (vty v) t.
+Proof. exact json_unmarshal_conforms. Qed.
+Print Assumptions C17_json_decoded_conforms.
+Theorem C17_mp_decoded_conforms : forall norm jp f m t v,
+  wf_ty t = true -> keys_normal norm t -> mp_unmarshal_at norm jp f m t = Ok v -> Conf (vty v) t.
+Proof. exact mp_unmarshal_conforms. Qed.
+Print Assumptions C17_mp_decoded_conforms.
+(* a decoded unknown has exactly the requested type, whatever refinements the extension body carries *)
+Theorem C17_unknown_type_exact : forall norm n items t v, unknown_of_mp norm n items t = Ok v -> vty v = t.
+Proof. exact unknown_of_mp_ty. Qed.
+Print Assumptions C17_unknown_type_exact.
+
+(* the premises are met by ordinary inputs: an object decoded against an object type with a placeholder *)
+Example C17_conforms_nonvacuous :
+  let t := TObj [([97%N], TDyn); ([98%N], TList TNum)] [] in
+  let j := JObj [([98%N], JArr [JNum [49%N]; JNull]); ([97%N], JObj [(s_value, JBool true); (s_type, JStr s_bool)])] in
+  wf_ty t = true /\ keys_normal (fun s => s) t /\
+  exists v, json_unmarshal (fun s => s) j t = Ok v /\ vty v = TObj [([97%N], TBool); ([98%N], TList TNum)] [].
+Proof. cbn [wf_ty keys_normal]. repeat split; auto; try (intros k _; reflexivity). eexists. split; vm_compute; reflexivity. Qed.
+Example C17_mp_conforms_nonvacuous :
+  let t := TTuple [TDyn; TSet TStr] in
+  let m := MArr [MUnk 0 []; MArr [MStr [97%N]; MStr [98%N]]] in
+  exists v, mp_unmarshal (fun s => s) (fun _ => None) m t = Ok v /\ vty v = TTuple [TDyn; TSet TStr].
+Proof. eexists. split; vm_compute; reflexivity. Qed.
